@@ -1,4 +1,5 @@
 import SigpyVerif.Model.C01
+import SigpyVerif.Model.C08
 /-
   C01 extension (core Lean only): the operator classes of `sigpy.linop` that have no exact entry model
   in `Leaf` (FFT, wavelets, convolutions, NUFFT), as plain constructor-argument records, so that the
@@ -29,5 +30,56 @@ inductive Opaque (α : Type) where
 def vstackList {α : Type} (axis : Option Int) : List (Expr α) → Option (Expr α)
   | [] => none
   | e :: es => some (es.foldl (fun acc x => .vstack axis acc x) e)
+
+/-! ### entry lists of the 1-D single-channel convolution classes, from the C08 model (executable: the
+    driver prints them, the correspondence compares them with the real operators' matrices) -/
+section conv
+variable {α : Type} [Add α] [Mul α] [Zero α] [One α] (conj : α → α)
+
+/-- unit signal -/
+def delta (k : Int) : Int → α := fun t => if t = k then 1 else 0
+
+/-- a list read as a signal (zero outside) -/
+def sig (l : List α) : Int → α := fun t => if 0 ≤ t then l.getD t.toNat 0 else 0
+
+/-- matrix of a map between signals of lengths `m` → `p`: column `i` is the image of the `i`-th unit signal -/
+def matOf (p m : Nat) (F : (Int → α) → Int → α) : List (Ent α) :=
+  (List.range p).flatMap fun k => (List.range m).flatMap fun i => [((k, i, F (delta (i : Int)) (k : Int)) : Ent α)]
+
+/-- `(full, m, n, s)` for a 1-D, single-channel, batch-free instance with valid parameters -/
+def conv1Params (ds fs : List Int) (mode : String) (st : Option (List Int)) (mc : Bool) :
+    Option (Bool × Int × Int × Int) :=
+  if ds.length = 1 ∧ fs.length = 1 ∧ mc = false ∧ (mode = "full" ∨ mode = "valid") ∧ (st.getD [1]).length = 1 then
+    if 1 ≤ getI ds 0 ∧ 1 ≤ getI fs 0 ∧ 0 < getI (st.getD [1]) 0 ∧
+        (decide (mode = "full") = true ∨ getI fs 0 ≤ getI ds 0) then
+      some (decide (mode = "full"), getI ds 0, getI fs 0, getI (st.getD [1]) 0)
+    else none
+  else none
+
+/-- what the four convolution classes denote in the 1-D single-channel case (C08 model) -/
+def convSem : Opaque α → Option (Sem α)
+  | .convData ds filt mode st mc =>
+      (conv1Params ds filt.shape mode st mc).map fun q =>
+        ⟨[C08.codeLen q.1 q.2.1 q.2.2.1 q.2.2.2], [q.2.1],
+          matOf (C08.codeLen q.1 q.2.1 q.2.2.1 q.2.2.2).toNat q.2.1.toNat
+            fun d => C08.conv1At q.1 q.2.1 q.2.2.1 q.2.2.2 d (sig filt.data)⟩
+  | .convDataAdj ds filt mode st mc =>
+      (conv1Params ds filt.shape mode st mc).map fun q =>
+        ⟨[q.2.1], [C08.codeLen q.1 q.2.1 q.2.2.1 q.2.2.2],
+          matOf q.2.1.toNat (C08.codeLen q.1 q.2.1 q.2.2.1 q.2.2.2).toNat
+            fun y => C08.dataAdj1At conj q.1 q.2.1 q.2.2.1 q.2.2.2 y (sig filt.data)⟩
+  | .convFilt fs data mode st mc =>
+      (conv1Params data.shape fs mode st mc).map fun q =>
+        ⟨[C08.codeLen q.1 q.2.1 q.2.2.1 q.2.2.2], [q.2.2.1],
+          matOf (C08.codeLen q.1 q.2.1 q.2.2.1 q.2.2.2).toNat q.2.2.1.toNat
+            fun f => C08.conv1At q.1 q.2.1 q.2.2.1 q.2.2.2 (sig data.data) f⟩
+  | .convFiltAdj fs data mode st mc =>
+      (conv1Params data.shape fs mode st mc).map fun q =>
+        ⟨[q.2.2.1], [C08.codeLen q.1 q.2.1 q.2.2.1 q.2.2.2],
+          matOf q.2.2.1.toNat (C08.codeLen q.1 q.2.1 q.2.2.1 q.2.2.2).toNat
+            fun y => C08.filtAdj1At conj q.1 q.2.1 q.2.2.1 q.2.2.2 y (sig data.data)⟩
+  | _ => none
+
+end conv
 
 end SigpyVerif.C01
